@@ -138,4 +138,9 @@ example : (match exHub.batchExecuted "e" "T" 2 "tx" 0 "p" with
 example : exHub.Bounded := Hub.bounded_of_all (by decide +kernel)
 example : exHub.LedgerInv := Hub.ledgerInv_of_all (by decide +kernel)
 
+/-- Tie to the code: a genesis import sets the observed external height (the only height batch timeouts are compared with) from the
+    exported field and from nothing else — not from vote records, claims or the wall clock. -/
+theorem fact_genesis_import_counters : Generated.genesis_import_counters =
+    "k.SetLastObservedExternalBlockHeight(ctx, chainId, externalState.LatestBlockHeight.ExternalHeight) | k.setLastObservedEventNonce(ctx, chainId, externalState.LastObservedEventNonce) | k.setLastOutgoingBatchNonce(ctx, chainId, externalState.LastOutgoingBatchTxNonce) | k.setOutgoingSequence(ctx, chainId, externalState.Sequence)" := rfl
+
 end Mhub2.C13
